@@ -141,6 +141,11 @@ theorem stripL_pad (p : Char → Bool) (pre l suf : List Char) (h1 : ∀ c ∈ p
   rw [List.append_assoc, lstripL_append_left p pre _ h1]
   exact strip_append_right p l suf h2
 
+theorem stripL_all (p : Char → Bool) (l : List Char) (h : ∀ c ∈ l, p c = true) : stripL p l = [] := by
+  unfold stripL
+  rw [lstripL_all p l h]
+  rfl
+
 theorem strip_idem (s : String) : strip (strip s) = strip s := by
   simp only [strip, String.toList_ofList]
   rw [stripL_idem]
